@@ -7,7 +7,10 @@
 * an inventory of every `*Content.get_full_text`: does it return what `_join_unit_text` makes of `iterate_units()`
   (decided by running it with `_join_unit_text` replaced by a recorder, so re-formatting the body does not matter;
   `_join_unit_text`'s own body is tied behaviourally by the correspondence);
-* the `start` value of every `enumerate(...)` that numbers units.
+* the `start` value of every `enumerate(...)` that numbers units;
+* an inventory of every call that can change or lose the order of a sequence (sorted, reversed, .sort, set, dict
+  re-keying helpers, unordered executors ...) inside the functions that build the unit sequence: the show order /
+  spine order / page order / mailbox order is the document order, so any such call has to be accounted for by name.
 """
 import ast
 
@@ -176,6 +179,57 @@ ENUM_SITES = [
 ]
 
 
+EPUB = "sharepoint2text/parsing/extractors/epub_extractor.py"
+MBOX = "sharepoint2text/parsing/extractors/mail/mbox_email_extractor.py"
+RTF = "sharepoint2text/parsing/extractors/ms_legacy/rtf_extractor.py"
+ODS = "sharepoint2text/parsing/extractors/open_office/ods_extractor.py"
+XLSX = "sharepoint2text/parsing/extractors/ms_modern/xlsx_extractor.py"
+# functions in which the sequence of slides / chapters / pages / messages / sheets / units is built: (file, function name)
+ORDER_SITES = [
+    (PPTX, "_compute_slide_order"), (PPTX, "read_pptx"),
+    (PPT, "_parse_slide_list_container"), (PPT, "_extract_slide_list_texts"), (PPT, "_build_slides_from_text_blocks"), (PPT, "_parse_ppt_document"),
+    (EPUB, "_parse_spine"), (EPUB, "read_epub"),
+    (MBOX, "_split_mbox_messages"), (MBOX, "read_mbox_format_mail"),
+    (RTF, "_strip_rtf_full_with_pages"), (RTF, "_extract_body_text"),
+    (ODP, "read_odp"), (ODS, "read_ods"), (XLSX, "read_xlsx"),
+    (DT, "iterate_units"), (DT, "_join_unit_text"),
+]
+REORDERING = {"sorted", "reversed", "sort", "reverse", "set", "frozenset", "fromkeys", "setdefault", "OrderedDict", "Counter", "groupby",
+              "heapify", "heappush", "heappop", "nsmallest", "nlargest", "shuffle", "sample", "as_completed", "imap_unordered", "popitem",
+              "insert", "appendleft", "rotate", "difference", "union", "intersection", "symmetric_difference"}
+
+
+def reorder_calls():
+    """[(qualified function, call name)] — every call whose name is in REORDERING inside an ORDER_SITES function, sorted."""
+    out = set()
+    trees = {}
+    for rel, fn in ORDER_SITES:
+        t = trees.setdefault(rel, parse(rel))
+        hits = []
+
+        def visit(node, qual):
+            for ch in ast.iter_child_nodes(node):
+                if isinstance(ch, ast.ClassDef):
+                    visit(ch, qual + [ch.name])
+                elif isinstance(ch, (ast.FunctionDef, ast.AsyncFunctionDef)):
+                    if ch.name == fn:
+                        hits.append((".".join(qual + [ch.name]), ch))
+                    else:
+                        visit(ch, qual + [ch.name])
+                else:
+                    visit(ch, qual)
+        visit(t, [])
+        if not hits:
+            raise ValueError(f"{rel}: function {fn} not found (unit-sequence builder inventory)")
+        for qn, node in hits:
+            for c in ast.walk(node):
+                if isinstance(c, ast.Call):
+                    nm = c.func.id if isinstance(c.func, ast.Name) else (c.func.attr if isinstance(c.func, ast.Attribute) else None)
+                    if nm in REORDERING:
+                        out.add((qn, nm))
+    return sorted(out)
+
+
 @generator("Units")
 def gen_units() -> str:
     notes = []
@@ -259,6 +313,8 @@ def gen_units() -> str:
     L.append("def fullTextKinds : List (String × String) := " + lean_list(f"({lean_str(a)}, {lean_str(b)})" for a, b in kinds) + "\n")
     L.append("/-- start value of every enumerate() that numbers units (-1 = not a literal) -/")
     L.append("def enumStarts : List (String × Int) := " + lean_list(f"({lean_str(a)}, {b})" for a, b in starts) + "\n")
+    L.append("/-- calls that can change / lose the order of a sequence inside the functions that build the unit sequence -/")
+    L.append("def reorderCalls : List (String × String) := " + lean_list(f"({lean_str(a)}, {lean_str(b)})" for a, b in reorder_calls()) + "\n")
     L.append("/-- translator cross-check notes; must be empty -/")
     L.append("def notes : List String := " + lean_list(lean_str(n) for n in notes) + "\n")
     L.append("def tables : Tables := { wsCodes, lineBreakCodes, pptTitleTypes, pptBodyTypes, pptNotesType, lowerAscii, docHeadingRules }\n")
